@@ -420,12 +420,13 @@ def calls_in(node: ast.AST) -> List[ast.Call]:
 
 
 def own_nodes(fn: ast.FunctionDef) -> Iterator[ast.AST]:
-    """Walk a function body without descending into nested defs/lambdas/classes."""
-    stack = list(fn.body)
-    while stack:
-        n = stack.pop()
+    """Nodes of a function body in source order, not descending into nested
+    defs / lambdas / classes (the nested def node itself is yielded)."""
+    def rec(n):
         yield n
+        if isinstance(n, (ast.FunctionDef, ast.AsyncFunctionDef, ast.ClassDef, ast.Lambda)):
+            return
         for ch in ast.iter_child_nodes(n):
-            if isinstance(ch, (ast.FunctionDef, ast.AsyncFunctionDef, ast.ClassDef, ast.Lambda)):
-                continue
-            stack.append(ch)
+            yield from rec(ch)
+    for st in fn.body:
+        yield from rec(st)
